@@ -12,22 +12,36 @@ from ..core.report import Run
 LEVEL = "other"
 
 
-def handler_sig(fn: ast.FunctionDef) -> List[Tuple[Tuple[str, ...], str]]:
-    """Ordered (caught classes, message constant) of the handlers around the call of the function."""
-    out = []
+def handler_sig(fn: ast.FunctionDef) -> Dict[str, frozenset]:
+    """caught class -> the message constants its handler can use, for the handlers around the call of the
+    resolved callable (wherever the error value is built: in place or in a helper the handler calls)."""
+    bound = {t.id for n in ast.walk(fn) if isinstance(n, (ast.Assign, ast.AnnAssign)) and n.value is not None
+             and any(isinstance(c, ast.Call) and (dotted(c.func) or "").endswith("resolve_function") for c in ast.walk(n.value))
+             for t in (n.targets if isinstance(n, ast.Assign) else [n.target]) if isinstance(t, ast.Name)}
+    out: Dict[str, frozenset] = {}
     for n in ast.walk(fn):
         if isinstance(n, ast.Try):
-            body_calls = [c for c in ast.walk(ast.Module(body=n.body, type_ignores=[])) if isinstance(c, ast.Call) and isinstance(c.func, ast.Name) and c.func.id == "function"]
+            body_calls = [c for c in ast.walk(ast.Module(body=n.body, type_ignores=[])) if isinstance(c, ast.Call) and isinstance(c.func, ast.Name) and c.func.id in bound]
             if not body_calls:
                 continue
             for h in n.handlers:
                 elts = h.type.elts if isinstance(h.type, ast.Tuple) else [h.type]
-                classes = tuple(sorted((dotted(e) or "?").split(".")[-1] for e in elts if e is not None))
-                msg = ""
+                classes = sorted((dotted(e) or "?").split(".")[-1] for e in elts if e is not None)
+                msgs = set()
                 for c in ast.walk(h):
-                    if isinstance(c, ast.Call) and (dotted(c.func) or "").endswith("CELEvalError") and c.args and isinstance(c.args[0], ast.Constant):
-                        msg = c.args[0].value
-                out.append((classes, msg))
+                    if isinstance(c, ast.Call) and "logger" not in (dotted(c.func) or ""):
+                        for a in c.args:
+                            if isinstance(a, ast.Constant) and isinstance(a.value, str):
+                                msgs.add(a.value)
+                        # message chosen by a conditional expression
+                        for a in c.args:
+                            if isinstance(a, ast.IfExp):
+                                msgs |= {x.value for x in ast.walk(a) if isinstance(x, ast.Constant) and isinstance(x.value, str)}
+                for st in ast.walk(h):
+                    if isinstance(st, ast.Assign) and isinstance(st.value, (ast.Constant, ast.IfExp)):
+                        msgs |= {x.value for x in ast.walk(st.value) if isinstance(x, ast.Constant) and isinstance(x.value, str)}
+                for cl in classes:
+                    out[cl] = frozenset(msgs) | out.get(cl, frozenset())
     return out
 
 
@@ -90,8 +104,19 @@ def check(repo: Repo, run: Run) -> None:
         raise AnchorMissing("Evaluator.function_eval / method_eval")
     # F1 -----------------------------------------------------------------
     sf, sm = handler_sig(fe), handler_sig(me)
-    run.ob("C14.F1", "function_eval~method_eval|handlers", sf == sm and bool(sf),
-           f"handlers around the host call: function_eval {sf}; method_eval {sm}", ev.loc(me))
+    if not sf or not sm:
+        run.inconclusive("C14.F1", "function_eval~method_eval|handlers", "no try block around the call of the resolved callable was found in one of the two methods")
+    else:
+        run.ob("C14.F1", "function_eval~method_eval|classes", set(sf) == set(sm),
+               f"exception classes converted around the host call: function_eval {sorted(sf)}; method_eval {sorted(sm)}", ev.loc(me))
+        for cl in sorted(set(sf) & set(sm)):
+            a, b = sf[cl], sm[cl]
+            if a == b:
+                run.ob("C14.F1", f"function_eval~method_eval|{cl}", True, f"{cl}: both call forms use the message(s) {sorted(a)}", ev.loc(me))
+            elif len(a) == 1 and len(b) == 1:
+                run.ob("C14.F1", f"function_eval~method_eval|{cl}", False, f"{cl}: f(x) reports {sorted(a)} but x.f() reports {sorted(b)}", ev.loc(me))
+            else:
+                run.inconclusive("C14.F1", f"function_eval~method_eval|{cl}", f"message selection differs in form: {sorted(a)} vs {sorted(b)}")
     for label, fn in (("function_eval", fe), ("method_eval", me)):
         s = ast.unparse(fn)
         run.shape("C14.F1", f"{label}|lookup", "self.activation.resolve_function(" in s, f"{label} resolves the name through Activation.resolve_function", ev.loc(fn))
@@ -106,13 +131,24 @@ def check(repo: Repo, run: Run) -> None:
         # arguments that are errors are returned
         errs = [n for n in ast.walk(fn) if isinstance(n, ast.If) and "isinstance(" in ast.unparse(n.test) and "CELEvalError" in ast.unparse(n.test)
                 and any(isinstance(r, ast.Return) for r in n.body)]
-        run.ob("C14.F1", f"{label}|error-args", len(errs) >= (2 if label == "function_eval" else 2),
+        run.shape("C14.F1", f"{label}|error-args", len(errs) >= (2 if label == "function_eval" else 2),
                f"{label} returns an argument that already is an error ({len(errs)} checks)", ev.loc(fn))
-    # the call shape: f(*args) vs f(object, *args)
-    calls_f = [ast.unparse(c) for c in ast.walk(fe) if isinstance(c, ast.Call) and isinstance(c.func, ast.Name) and c.func.id == "function"]
-    calls_m = [ast.unparse(c) for c in ast.walk(me) if isinstance(c, ast.Call) and isinstance(c.func, ast.Name) and c.func.id == "function"]
-    run.ob("C14.F1", "call shapes", calls_f == ["function(*list_exprlist)"] and calls_m == ["function(object, *list_exprlist)"],
-           f"f(a, b) calls {calls_f}; a.f(b) calls {calls_m}: the receiver is the first argument", ev.loc(me))
+    # the call shape: f(*args) vs f(receiver, *args) - the callable is the variable bound from resolve_function(...)
+    def host_calls(fn: ast.FunctionDef):
+        bound = {t.id for n in ast.walk(fn) if isinstance(n, (ast.Assign, ast.AnnAssign)) and n.value is not None
+                 and any(isinstance(c, ast.Call) and (dotted(c.func) or "").endswith("resolve_function") for c in ast.walk(n.value))
+                 for t in (n.targets if isinstance(n, ast.Assign) else [n.target]) if isinstance(t, ast.Name)}
+        return [c for c in ast.walk(fn) if isinstance(c, ast.Call) and isinstance(c.func, ast.Name) and c.func.id in bound]
+
+    cf, cm = host_calls(fe), host_calls(me)
+    recv = me.args.args[1].arg if len(me.args.args) > 1 else None
+    def shape_of(c: ast.Call):
+        return ["*" if isinstance(a, ast.Starred) else (a.id if isinstance(a, ast.Name) else "?") for a in c.args] + [f"{k.arg}=" for k in c.keywords]
+    if len(cf) != 1 or len(cm) != 1:
+        run.inconclusive("C14.F1", "call shapes", f"expected one call of the resolved callable in each method, found {len(cf)} and {len(cm)}")
+    else:
+        run.ob("C14.F1", "call shapes", shape_of(cf[0]) == ["*"] and shape_of(cm[0]) == [recv, "*"],
+               f"f(a, b) calls `{ast.unparse(cf[0])}`; a.f(b) calls `{ast.unparse(cm[0])}`: the evaluated arguments are passed positionally, the receiver first", ev.loc(me))
     # F2 -----------------------------------------------------------------
     n2 = 0
     for q, node, val in functions_assignments(repo):
